@@ -152,7 +152,6 @@ theorem best_params (k : Nat) :
       simp only [ih, bestRef, outAt, hc, true_and]
     · rw [valPart_skip _ _ _ _ hv (by rw [hi]; exact hc)]
       simp only [ih, bestRef, hc, false_and, if_false]
-      simp
 
 /-- **Best parameters = those of the last invocation that flagged an improvement.** -/
 theorem bestRef_last_improving (k j : Nat) (hj : j < k) (hc : j % pr.callEvery = 0)
@@ -423,7 +422,8 @@ theorem vl_first_stop (patience : Nat) (vs : List Rat)
     · subst hnil
       simp [vlHist, lead] at hge ⊢
       omega
-    · subst hvs
+    · rw [List.concat_eq_append] at hvs
+      subst hvs
       have hp := hfirst pre.length (by simp)
       simp at hp
       have hle := lead_hist_snoc_le pre v
